@@ -27,9 +27,26 @@ static const suite_t CHAINED[] = {
 #define NCHAINED ((int) (sizeof CHAINED / sizeof CHAINED[0]))
 typedef struct {
         int a, h, dir;
-        char name[64];
+        int a2, h2, dir2, mixed; /* mixed: jobs of two different suites that share an OOO manager in one schedule */
+        char name[96];
 } unit_t;
-static unit_t UNITS[256];
+/* pairs of suites sharing an out-of-order manager (second stage of one is dispatched while the other is parked) */
+static const struct {
+        suite_t s1, s2;
+} MIXED[] = {
+        { { "aes-ctr-128", "hmac-sha1", 1 }, { "aes-cbc-128", "hmac-sha1", 0 } },
+        { { "aes-cbc-128", "hmac-sha256", 1 }, { "aes-cbc-128", "hmac-sha256", 0 } },
+        { { "aes-cbc-128", "sha1", 1 }, { "aes-cbc-128", "hmac-md5", 1 } },
+        { { "des-cbc", "hmac-sha512", 1 }, { "3des-cbc", "hmac-sha512", 0 } },
+        { { "docsis-aes-128", "hmac-sha384", 1 }, { "aes-cfb-128", "hmac-sha384", 0 } },
+        { { "zuc-eea3-128", "zuc-eia3-128", 1 }, { "aes-ctr-128", "zuc-eia3-128", 0 } },
+        { { "aes-cbc-256", "aes-cmac-128", 1 }, { "aes-ecb-128", "aes-cmac-128", 0 } },
+        { { "aes-cbc-192", "aes-xcbc", 1 }, { "aes-ctr-192", "aes-xcbc", 0 } },
+};
+#define NMIXED ((int) (sizeof MIXED / sizeof MIXED[0]))
+static uint8_t SUITE_OF[64]; /* per job of the current schedule: 0 = first suite, 1 = second suite */
+static int use_burst;
+static unit_t UNITS[300];
 static int NUNITS;
 
 static IMB_MGR *m;
@@ -38,11 +55,14 @@ static size_t mgr_sz;
 static keyset_t *KS[2];
 static int g_v, thorough;
 static unit_t *U;
-static uint32_t LENS[4], HLENS[4];
+static uint32_t LENS2[2][4], HLENS2[2][4];
+#define LENS (LENS2[cur_suite])
+#define HLENS (HLENS2[cur_suite])
+static int cur_suite;
 
 typedef struct {
         uint8_t src[MAXL + 64], dst[MAXL + 64], tag[80], iv[32], hiv[32], niv[32];
-        uint8_t exp_dst[4][MAXL + 16], exp_tag[4][64];
+        uint8_t exp_dst[2][4][MAXL + 16], exp_tag[2][4][64];
         IMB_JOB snap;
         int li, returned;
 } jslot_t;
@@ -65,9 +85,12 @@ make_item(item_t *it, int i, int li)
 {
         jslot_t *s = &J[i];
         memset(it, 0, sizeof *it);
-        it->alg = U->a ? U->a : U->h;
-        it->dir = U->dir;
-        it->len = U->a ? LENS[li] : HLENS[li];
+        const int sx = U->mixed ? SUITE_OF[i] : 0;
+        const int ua = sx ? U->a2 : U->a, uh = sx ? U->h2 : U->h, ud = sx ? U->dir2 : U->dir;
+        cur_suite = sx;
+        it->alg = ua ? ua : uh;
+        it->dir = ud;
+        it->len = ua ? LENS[li] : HLENS[li];
         it->ks = KS[i & 1];
         it->src = s->src;
         it->dst = s->dst;
@@ -83,8 +106,8 @@ make_item(item_t *it, int i, int li)
                 it->hash_len = LENS[li] + 8;
                 it->cipher_off = 12;
         }
-        if (U->a && U->h) {
-                it->alg2 = U->h;
+        if (ua && uh) {
+                it->alg2 = uh;
                 it->hlen = HLENS[li];
                 it->hoff = 0;
                 it->hiv = s->hiv;
@@ -103,7 +126,7 @@ fill_inputs(int i)
                 s->iv[q] &= 0x3f;
                 s->hiv[q] &= 0x3f;
         }
-        if (ALGS[U->a ? U->a : U->h].family == F_PON) {
+        if (!U->mixed && ALGS[U->a ? U->a : U->h].family == F_PON) {
                 s->src[0] = 0;
                 s->src[1] = 0; /* PLI 0 */
         }
@@ -132,7 +155,13 @@ typedef struct {
 static void
 sched_str(const sched_t *sc, char *buf, size_t n)
 {
-        size_t o = (size_t) snprintf(buf, n, "n=%d", sc->n);
+        size_t o = (size_t) snprintf(buf, n, "%sn=%d", use_burst ? "burst-api " : "", sc->n);
+        if (U->mixed) {
+                int h = 0;
+                while (h < sc->n && SUITE_OF[h] == SUITE_OF[0])
+                        h++;
+                o += (size_t) snprintf(buf + o, n - o, " suites=%d x suite%d then suite%d", h, SUITE_OF[0] + 1, !SUITE_OF[0] + 1);
+        }
         for (int d = 0; d < sc->ndev; d++) {
                 int i = sc->dev[d] / 5, t = sc->dev[d] % 5;
                 if (t < 3)
@@ -186,13 +215,13 @@ handback(const sched_t *sc, IMB_JOB *r)
         }
         uint8_t d[MAXL + 16], t[64];
         snap_outputs((int) i, s->li, d, t);
-        if (memcmp(d, s->exp_dst[s->li], MAXL + 16)) {
+        if (memcmp(d, s->exp_dst[U->mixed ? SUITE_OF[i] : 0][s->li], MAXL + 16)) {
                 int k = 0;
-                while (d[k] == s->exp_dst[s->li][k])
+                while (d[k] == s->exp_dst[U->mixed ? SUITE_OF[i] : 0][s->li][k])
                         k++;
                 viol("C04", sc, "dst-differs-from-alone", "output differs from the same job processed alone", (int) i, k);
         }
-        if (memcmp(t, s->exp_tag[s->li], 64))
+        if (memcmp(t, s->exp_tag[U->mixed ? SUITE_OF[i] : 0][s->li], 64))
                 viol("C04", sc, "tag-differs-from-alone", "tag differs from the same job processed alone", (int) i, 0);
         /* C14: caller-owned descriptor fields unchanged */
         IMB_JOB a = *r, b = s->snap;
@@ -268,6 +297,83 @@ run_schedule(const sched_t *sc)
         n_sched++;
 }
 
+/* the same schedule through the asynchronous burst API: bursts are cut where the schedule has a flush /
+ * get_completed deviation (flush deviation: everything is flushed between the bursts) */
+static void
+run_schedule_burst(const sched_t *sc)
+{
+        int li[NMAX], pre[NMAX];
+        memset(li, 0, sizeof li);
+        memset(pre, 0, sizeof pre);
+        for (int d = 0; d < sc->ndev; d++) {
+                int i = sc->dev[d] / 5, t = sc->dev[d] % 5;
+                if (t < 3)
+                        li[i] = t + 1;
+                else
+                        pre[i] |= t == 3 ? 1 : 2;
+        }
+        memcpy(m, pristine, mgr_sz);
+        next_expected = 0;
+        for (int i = 0; i < sc->n; i++) {
+                fill_inputs(i);
+                J[i].returned = 0;
+                J[i].li = li[i];
+        }
+        IMB_JOB *jobs[NMAX + 4];
+        int start = 0;
+        while (start < sc->n) {
+                int end = start + 1;
+                while (end < sc->n && !pre[end])
+                        end++;
+                int nb = end - start;
+                uint32_t k = X_GET_NEXT_BURST(m, (uint32_t) nb, jobs);
+                if (k != (uint32_t) nb) {
+                        viol("C04", sc, "burst-slots", "get_next_burst returned fewer slots than requested on a non-full queue", start, k);
+                        return;
+                }
+                for (int q = 0; q < nb; q++) {
+                        item_t it;
+                        make_item(&it, start + q, li[start + q]);
+                        alg_fill(m, jobs[q], &it);
+                        jobs[q]->user_data = (void *) (long) (start + q + 1);
+                        imb_set_session(m, jobs[q]);
+                        J[start + q].snap = *jobs[q];
+                }
+                uint32_t r = X_SUBMIT_BURST(m, (uint32_t) nb, jobs);
+                n_jobs += nb;
+                if (imb_get_errno(m))
+                        viol("C04", sc, "rejected", "valid burst rejected", start, imb_get_errno(m));
+                for (uint32_t q = 0; q < r; q++)
+                        handback(sc, jobs[q]);
+                if (end < sc->n && (pre[end] & 1)) {
+                        if (X_QUEUE_SIZE(m))
+                                n_partial_flush++;
+                        while ((r = X_FLUSH_BURST(m, NMAX, jobs)))
+                                for (uint32_t q = 0; q < r; q++)
+                                        handback(sc, jobs[q]);
+                }
+                start = end;
+        }
+        if (X_QUEUE_SIZE(m) > 1)
+                n_multi++;
+        uint32_t r;
+        while ((r = X_FLUSH_BURST(m, NMAX, jobs)))
+                for (uint32_t q = 0; q < r; q++)
+                        handback(sc, jobs[q]);
+        for (int i = 0; i < sc->n; i++)
+                if (J[i].returned != 1)
+                        viol("C04", sc, "not-exactly-once", "job not handed back exactly once (burst API)", i, J[i].returned);
+        n_sched++;
+}
+static void
+run_sched(const sched_t *sc)
+{
+        if (use_burst)
+                run_schedule_burst(sc);
+        else
+                run_schedule(sc);
+}
+
 static void
 run_unit_variant(long item, void *arg)
 {
@@ -276,11 +382,12 @@ run_unit_variant(long item, void *arg)
         g_v = (int) (item % NVARIANTS);
         if (!variant_usable(g_v))
                 return;
+        int kmax = thorough ? 2 : 1;
         m = mgr_new(g_v);
         mgr_sz = imb_get_mb_mgr_size();
         pristine = malloc(mgr_sz);
         memcpy(pristine, m, mgr_sz);
-        static char ctx[96];
+        static char ctx[128];
         snprintf(ctx, sizeof ctx, "%s/%s", VARIANTS[g_v].name, U->name);
         g_tcall_ctx = ctx;
         KS[0] = keyset_new(m, 3);
@@ -289,49 +396,88 @@ run_unit_variant(long item, void *arg)
         /* length alphabet: default, minimum, one block more, long */
         static const uint32_t want[4] = { 64, 1, 80, 304 };
         static const uint32_t wanth[4] = { 64, 1, 77, 301 };
-        for (int q = 0; q < 4; q++) {
-                LENS[q] = U->a ? pick_len(U->a, want[q]) : 0;
-                HLENS[q] = U->h ? pick_len(U->h, U->a ? want[q] : wanth[q]) : 0;
-                if (U->a && U->h) { /* hash range within the ciphered buffer */
-                        uint32_t cb = ALGS[U->a].bitlen ? (LENS[q] + 7) / 8 : LENS[q];
-                        HLENS[q] = pick_len(U->h, cb);
-                        uint32_t hb = ALGS[U->h].bitlen ? (HLENS[q] + 7) / 8 : HLENS[q];
-                        if (hb > cb + 32)
-                                HLENS[q] = pick_len(U->h, 9);
+        for (int sx = 0; sx < (U->mixed ? 2 : 1); sx++) {
+                const int ua = sx ? U->a2 : U->a, uh = sx ? U->h2 : U->h;
+                cur_suite = sx;
+                for (int q = 0; q < 4; q++) {
+                        LENS[q] = ua ? pick_len(ua, want[q]) : 0;
+                        HLENS[q] = uh ? pick_len(uh, ua ? want[q] : wanth[q]) : 0;
+                        if (ua && uh) { /* hash range within the ciphered buffer */
+                                uint32_t cb = ALGS[ua].bitlen ? (LENS[q] + 7) / 8 : LENS[q];
+                                HLENS[q] = pick_len(uh, cb);
+                                uint32_t hb = ALGS[uh].bitlen ? (HLENS[q] + 7) / 8 : HLENS[q];
+                                if (hb > cb + 32)
+                                        HLENS[q] = pick_len(uh, 9);
+                        }
                 }
         }
+        cur_suite = 0;
         /* expectations: every (job, length) alone on the pristine manager */
         sched_t alone = { .n = 1 };
-        for (int i = 0; i < NMAX; i++)
-                for (int li = 0; li < 4; li++) {
-                        memcpy(m, pristine, mgr_sz);
-                        fill_inputs(i);
-                        IMB_JOB *j = IMB_GET_NEXT_JOB(m);
-                        item_t it;
-                        make_item(&it, i, li);
-                        alg_fill(m, j, &it);
-                        IMB_JOB *r = IMB_SUBMIT_JOB(m);
-                        if (!r)
-                                r = IMB_FLUSH_JOB(m);
-                        if (!r || r->status != IMB_STATUS_COMPLETED) {
-                                viol("C04", &alone, "alone-failed", "valid job failed when processed alone", i,
-                                     r ? (long) r->status * 100000 + imb_get_errno(m) : -1);
-                                goto out;
+        for (int sx = 0; sx < (U->mixed ? 2 : 1); sx++)
+                for (int i = 0; i < NMAX; i++)
+                        for (int li = 0; li < 4; li++) {
+                                memcpy(m, pristine, mgr_sz);
+                                SUITE_OF[i] = (uint8_t) sx;
+                                fill_inputs(i);
+                                IMB_JOB *j = IMB_GET_NEXT_JOB(m);
+                                item_t it;
+                                make_item(&it, i, li);
+                                alg_fill(m, j, &it);
+                                IMB_JOB *r = IMB_SUBMIT_JOB(m);
+                                if (!r)
+                                        r = IMB_FLUSH_JOB(m);
+                                if (!r || r->status != IMB_STATUS_COMPLETED) {
+                                        viol("C04", &alone, "alone-failed", "valid job failed when processed alone", i,
+                                             r ? (long) r->status * 100000 + imb_get_errno(m) : -1);
+                                        goto out;
+                                }
+                                snap_outputs(i, li, J[i].exp_dst[sx][li], J[i].exp_tag[sx][li]);
                         }
-                        snap_outputs(i, li, J[i].exp_dst[li], J[i].exp_tag[li]);
-                }
-        int kmax = thorough ? 2 : 1;
+        memset(SUITE_OF, 0, sizeof SUITE_OF);
+        if (U->mixed) {
+                /* mixed-suite schedules: the first h jobs of one suite, the rest of the other (both orders), every n and h,
+                 * plus one length deviation; through the job API and through the burst API */
+                for (use_burst = 0; use_burst < 2; use_burst++)
+                        for (int n = 1; n <= NMAX && !deadline_reached(); n++)
+                                for (int h = 0; h <= n; h++)
+                                        for (int first = 0; first < 2; first++) {
+                                                for (int i = 0; i < n; i++)
+                                                        SUITE_OF[i] = (uint8_t) ((i < h) ? first : !first);
+                                                sched_t sc = { .n = n };
+                                                run_sched(&sc);
+                                                if (((h == 0 || h == n) && first) || !thorough)
+                                                        continue;
+                                                for (int d1 = 0; d1 < n * 5; d1++) {
+                                                        if (d1 % 5 >= 3 && d1 / 5 == 0)
+                                                                continue;
+                                                        sc.ndev = 1;
+                                                        sc.dev[0] = d1;
+                                                        run_sched(&sc);
+                                                }
+                                        }
+                use_burst = 0;
+                goto out_stats;
+        }
+        kmax = thorough ? 2 : 1;
+        for (use_burst = 0; use_burst < 2; use_burst++)
         for (int n = 1; n <= NMAX && !deadline_reached(); n++) {
+                if (use_burst && kmax > 1)
+                        kmax = 1;
+                if (!thorough && n > 18 && n < NMAX - 3)
+                        continue; /* quick: n = 1..18 and 31..34 */
                 int ND = n * 5;
                 sched_t sc = { .n = n };
-                run_schedule(&sc);
+                run_sched(&sc);
                 for (int d1 = 0; d1 < ND; d1++) {
                         if (d1 % 5 >= 3 && d1 / 5 == 0)
                                 continue; /* flush/getc before the first job: no-op */
+                        if (use_burst && !thorough && !(d1 / 5 == 0 || d1 / 5 == n / 2 || d1 / 5 == n - 1))
+                                continue; /* quick, burst API: deviations at the first, middle and last job only */
                         sc.ndev = 1;
                         sc.dev[0] = d1;
-                        run_schedule(&sc);
-                        if (kmax < 2)
+                        run_sched(&sc);
+                        if (kmax < 2 || use_burst)
                                 continue;
                         if (!(n <= 18 || n >= NMAX - 3))
                                 continue;
@@ -342,10 +488,13 @@ run_unit_variant(long item, void *arg)
                                         continue; /* two lengths for one job */
                                 sc.ndev = 2;
                                 sc.dev[1] = d2;
-                                run_schedule(&sc);
+                                run_sched(&sc);
                         }
                 }
         }
+        use_burst = 0;
+        kmax = thorough ? 2 : 1;
+out_stats:
         if (deadline_reached())
                 stat_add("caps_hit", 1);
 out:
@@ -415,6 +564,21 @@ main(int argc, char **argv)
                 u->h = alg_id(CHAINED[c].hash);
                 u->dir = CHAINED[c].dir;
                 snprintf(u->name, sizeof u->name, "%s+%s/%s", CHAINED[c].cipher, CHAINED[c].hash, u->dir ? "enc" : "dec");
+                if (strstr(u->name, filter))
+                        NUNITS++;
+        }
+        for (int c = 0; c < NMIXED; c++) {
+                unit_t *u = &UNITS[NUNITS];
+                memset(u, 0, sizeof *u);
+                u->a = alg_id(MIXED[c].s1.cipher);
+                u->h = alg_id(MIXED[c].s1.hash);
+                u->dir = MIXED[c].s1.dir;
+                u->a2 = alg_id(MIXED[c].s2.cipher);
+                u->h2 = alg_id(MIXED[c].s2.hash);
+                u->dir2 = MIXED[c].s2.dir;
+                u->mixed = 1;
+                snprintf(u->name, sizeof u->name, "mixed:%s+%s/%s|%s+%s/%s", MIXED[c].s1.cipher, MIXED[c].s1.hash, u->dir ? "enc" : "dec",
+                         MIXED[c].s2.cipher, MIXED[c].s2.hash, u->dir2 ? "enc" : "dec");
                 if (strstr(u->name, filter))
                         NUNITS++;
         }
